@@ -2,11 +2,33 @@
    PARTIAL: the full statements
      strict_lazy_agree : OrderInsensitive f -> run_s .. = Ok g1 -> no_node_rendered .. -> exists g2, run_l .. = Ok g2 /\ g1 ≅ g2
      strict_fail_lazy_fail : run_s .. = Err e -> OrderIndependentCause e -> exists e', run_l .. = Err e'
-   are not proved yet.  Proved here: building blocks named in DESIGN.md §7 C02 — the two interpreters'
-   copies of capture binding, regex-capture lookup and scan-arm selection compute the same thing, and the
-   lazy store's forcing discipline (a thunk is forced at most once, every reader sees one value).
-   The whole-run statements are explored by the direct strict-vs-lazy stream and both correspondence streams. *)
-From TSG Require Import Model.Strict Model.Lazy Model.Run Proofs.Captures Proofs.MonadFacts Proofs.K7.
+   are not proved (and strict_lazy_agree is FALSE as stated for cyclic scoped-variable definitions: K7 below).
+   Proved here:
+   * strict_lazy_same_graph_partial — the first WHOLE-RUN theorem relating Model/Strict.v and Model/Lazy.v
+     (Proofs/SLGraph.v, SLForce.v, SLExpr.v, SLStmt.v, StrictLazy.v).  Fragment (`file_ok`, built from `fexpr`/`fstmt` of
+     Proofs/SLExpr.v): no scoped variables (no EScoped, no VarS); every called function is graph-pure (`pure_fn`: it
+     neither reads nor changes the graph — every stdlib function except `node`, stdlib_graph_pure_partial); in every
+     capture expression the file-query and the stanza-query capture index select the same nodes of every supplied
+     match; every supplied match has its full-match capture; no matches for stanzas that do not exist.  Local
+     variables (let/var/set), if, for, scan, list/set comprehensions, print, node, edge, attr and attribute
+     shorthands are all inside the fragment.  No debug attributes (config0), no cancellation (budget None); the
+     lazy interpreter receives the strict matches stanza by stanza in strict order (`lmatches_of`).
+     Statement: if strict execution succeeds then, for EVERY lazy fuel, lazy execution never fails and never
+     panics, and when it does not run out of model fuel it returns EXACTLY the strict graph (same node numbering,
+     same attribute lists in the same order, same sorted edge vectors) — equality, not just isomorphism.
+   * strict_lazy_adequate_partial — adequacy on the same fragment (Proofs/SLConv.v): some lazy model fuel suffices,
+     and from that fuel on lazy execution IS Ok with exactly the strict graph; so on the fragment "strict succeeds ->
+     lazy succeeds with the same graph" holds without any fuel caveat.
+     NOT proved: scoped variables (any use); `(node)` calls, for which only isomorphism can hold; an arbitrary
+     interleaving of the matches of different stanzas as tree-sitter reports them for the merged query; the
+     failure direction strict_fail_lazy_fail.
+   * building blocks named in DESIGN.md §7 C02 — the two interpreters' copies of capture binding, regex-capture
+     lookup and scan-arm selection compute the same thing, and the lazy store's forcing discipline (a thunk is
+     forced at most once, every reader sees one value).
+   The whole-run statements outside the fragment are explored by the direct strict-vs-lazy stream and both
+   correspondence streams. *)
+From TSG Require Import Model.Strict Model.Lazy Model.Run Model.Stdlib Proofs.Captures Proofs.MonadFacts Proofs.K7
+  Proofs.SLExpr Proofs.StrictLazy Proofs.SLExample.
 
 (* `$k` has the same value in both modes; out of range is UndefinedRegexCapture in both *)
 Theorem lazy_regex_capture_partial : forall t fl glob call fuel fuel' (le : lenv) (ll : llenv) i s p sl pl,
@@ -52,6 +74,49 @@ Theorem thunk_cycle_partial : forall t fl call fuel loc s p th,
 Proof.
   intros t fl call fuel loc s p th H1 H2. cbn [force_thunk]. unfold bind, get_state. rewrite H1. unfold ctx_wrap. rewrite H2. reflexivity.
 Qed.
+
+(* WHOLE RUN, fragment without scoped variables and with graph-pure function calls: strict success implies that
+   lazy execution of the same file on the same matches never fails, never panics and — unless the model runs out
+   of fuel — returns exactly the strict graph.  (Hypotheses: see the header; `file_ok` is in Proofs/StrictLazy.v,
+   `fexpr`/`fstmt`/`pure_fn` in Proofs/SLExpr.v.) *)
+Theorem strict_lazy_same_graph_partial :
+  forall {rx : Type} t fl supplied (regexes : list rx) find call (okfn : ident -> Prop) fuel ms g0 s p,
+  (forall f, okfn f -> pure_fn call f) ->
+  file_ok okfn fl (f_stanzas fl) ms ->
+  run_strict t fl config0 supplied None regexes find call fuel ms g0 = Ok (s, p) ->
+  forall lfuel,
+    match run_lazy t fl config0 supplied None regexes find call lfuel (lmatches_of ms) g0 with
+    | Ok (ls, _) => l_graph ls = s_graph s
+    | OutOfFuel => True
+    | Err _ | Panic _ => False
+    end.
+Proof. exact @strict_lazy_same_graph_lemma. Qed.
+
+(* adequacy: under the same hypotheses some lazy fuel suffices; from that fuel on the lazy run is Ok and returns
+   exactly the strict graph *)
+Theorem strict_lazy_adequate_partial :
+  forall {rx : Type} t fl supplied (regexes : list rx) find call (okfn : ident -> Prop) fuel ms g0 s p,
+  (forall f, okfn f -> pure_fn call f) ->
+  file_ok okfn fl (f_stanzas fl) ms ->
+  run_strict t fl config0 supplied None regexes find call fuel ms g0 = Ok (s, p) ->
+  exists lfuel0, forall lfuel, (lfuel0 <= lfuel)%nat ->
+    exists ls pl, run_lazy t fl config0 supplied None regexes find call lfuel (lmatches_of ms) g0 = Ok (ls, pl) /\ l_graph ls = s_graph s.
+Proof. exact @strict_lazy_adequate_lemma. Qed.
+
+(* every function of the standard library except `node` satisfies the purity hypothesis *)
+Theorem stdlib_graph_pure_partial : forall rxo t f, fn_of_name f <> Some FNode -> pure_fn (stdlib_call rxo t) f.
+Proof. exact stdlib_pure_fn. Qed.
+
+(* the hypotheses hold of a concrete program (nodes, edges, node and edge attributes, a mutable local, a stdlib
+   call, a shorthand, for, if, scan, print, a list comprehension: Proofs/SLExample.v) on which both runs are Ok
+   with the same five-node graph *)
+Example strict_lazy_same_graph_nonvacuous :
+  (forall f, ex_okfn f -> pure_fn (the_call k7_tree []) f) /\
+  file_ok ex_okfn ex_file (f_stanzas ex_file) ex_matches /\
+  graph_of (run_strict k7_tree ex_file config0 [[]] None ex_regexes rx_captures (the_call k7_tree []) default_fuel ex_matches []) = Ok ex_graph /\
+  lgraph_of (run_lazy k7_tree ex_file config0 [[]] None ex_regexes rx_captures (the_call k7_tree []) default_fuel (lmatches_of ex_matches) []) = Ok ex_graph /\
+  length ex_graph = 5%nat.
+Proof. split; [exact ex_pure|]. split; [exact ex_file_ok|]. split; [exact ex_strict_ok|]. split; [exact ex_lazy_ok|reflexivity]. Qed.
 
 (* KNOWN FINDING K7: the full statement `strict_lazy_agree` is FALSE of the faithful model (and of the
    implementation: the witness is replayed on it by `tsgv known K7`).  A file with no inherited and no
